@@ -363,6 +363,7 @@ func main() {
 		"every subset of >= k members (quick: all for n<=7, 40 sampled per larger n; thorough: all), 3 arrival orders each, through AddWitnessSign and through RecoverGroupSignature; " +
 		"arrival orders with a piece re-delivered before the threshold (panic or stuck lock inside AddWitnessSign = violation); several messages per group in one process (lengths 0..100, shared 32-byte suffix/prefix, zero-padded forms, shuffled and repeated): Sign = key*HashToPoint(msg) computed independently, share verifies for its own message only, recovered signature verifies under the group key; " +
 		"3-of-5 groups on the executable curve model (every delta_i*sig_i, the combination and gsk*H(m) recomputed by the model and compared with the returned bytes); " +
+		"share pieces through the node's sender over an in-memory network (delivered share matrix = dealer polynomial at the receiver's id; property on the resulting keys) and the king's parent-group piece collection with stale pieces for another hash in all small arrival orders; " +
 		"several groups processed concurrently (own group per goroutine, every API result compared with its sequential reference; -race in the thorough tier) and the inventory of package-level state in groupsig/bn256; " +
 		"repeated members and repeated dealer pieces must be refused, RandomPerm/getRandomKSignInfo must return a k-subset, GetGroupK(n) = ceil(51n/100) for n < 3000; " +
 		"model cases: ShareSeckey/AggregateSeckeys scalars, recovery with arbitrary share scalars (map and ordered slices, ids congruent mod r, repeated id), DKG runs, per-member handleSharePiece runs, RandomPerm, GetGroupK, generator runs. " +
@@ -878,6 +879,14 @@ func main() {
 	for cg := 0; cg < curveGroups; cg++ {
 		curveCases(rng, res, curveBuf, cg, thorough)
 	}
+
+	// ---- message layer: share pieces through the node's sender; parent-group signature pieces ----
+	for fi, procs := range []int{1, 0, 4} {
+		if fi < 2 || thorough {
+			sharePieceFlow(rng, res, cs, procs, fmt.Sprint("flow", fi))
+		}
+	}
+	parentSignFamily(rng, res, thorough)
 
 	// ---- several groups processed concurrently; inventory of package-level state ----
 	concurrencyFamily(a, res)
